@@ -6,7 +6,7 @@
                  accepted up to the ticker observation (which the model does not predict). *)
 From Coq Require Import List Arith Bool Lia.
 Import ListNotations.
-Require Import Aiuti.CaseLib Aiuti.Bridge Aiuti.BridgeInv Aiuti.Case_C16.
+Require Import Aiuti.CaseLib Aiuti.Bridge Aiuti.BridgeInv Aiuti.BridgeLive Aiuti.Case_C16.
 
 Lemma nats_eqb_refl l : list_eqb Nat.eqb l l = true.
 Proof. apply list_eqb_refl, Nat.eqb_refl. Qed.
@@ -61,25 +61,23 @@ Qed.
 (* the statement of C16 on an observed run, in the property's own words *)
 Lemma ok_sound_lemma k :
   ok k = true ->
-  match k with
-  | Case c _ _ _ res obsd out joined nleft _ _ _ parks =>
-      res = 0 /\
-      (exists n, obsd = firstn n (c_src c) /\
-         (c_fail c = None -> n = length (c_src c) /\ out = Some Stop) /\
-         (forall f, c_fail c = Some f -> f <= length (c_src c) -> n = f /\ out = Some (Raised (c_exc c))) /\
-         (forall f, c_fail c = Some f -> length (c_src c) < f -> n = length (c_src c) /\ out = Some Stop)) /\
-      joined = true /\ nleft = 0 /\
-      (is_async c = true -> c_noniter c = false -> forall d t, In (d, t) parks -> d <= t + 1)
-  end.
+  let c := cfg_of k in let o := obs_of_case k in
+  o_res o = 0 /\
+  (exists n, o_consumed o = firstn n (c_src c) /\
+     (c_fail c = None -> n = length (c_src c) /\ o_out o = Some Stop) /\
+     (forall f, c_fail c = Some f -> f <= length (c_src c) -> n = f /\ o_out o = Some (Raised (c_exc c))) /\
+     (forall f, c_fail c = Some f -> length (c_src c) < f -> n = length (c_src c) /\ o_out o = Some Stop)) /\
+  o_joined o = true /\ o_left o = 0 /\
+  (is_async c = true -> c_noniter c = false -> forall d t, In (d, t) (parks_of k) -> d <= t + 1).
 Proof.
-  destruct k as [c g l tr res obsd out joined nleft nw pt nt parks]. unfold ok. cbn.
-  intros H. apply ok_obs_sound in H as (H1 & H2 & H3 & H4 & H5 & H6). cbn in *.
+  unfold ok. intros H. cbn zeta.
+  apply ok_obs_sound in H as (H1 & H2 & H3 & H4 & H5 & H6).
   split; [assumption|]. split; [|split; [assumption|split; [assumption|]]].
-  - exists (delivered c). split; [assumption|]. split; [|split].
-    + intros F. destruct (spec_none c F) as [-> E]. now rewrite H3, E.
-    + intros f F L. destruct (spec_fail c f F L) as [-> E]. now rewrite H3, E.
-    + intros f F L. destruct (spec_late c f F L) as [-> E]. now rewrite H3, E.
-  - intros A N. apply starved_of_false. now apply H6.
+  - exists (delivered (cfg_of k)). split; [assumption|]. split; [|split].
+    + intros F. destruct (spec_none _ F) as [-> E]. now rewrite H3, E.
+    + intros f F L. destruct (spec_fail _ f F L) as [-> E]. now rewrite H3, E.
+    + intros f F L. destruct (spec_late _ f F L) as [-> E]. now rewrite H3, E.
+  - intros A N. apply starved_of_false. specialize (H6 A N). destruct k; exact H6.
 Qed.
 
 (* ---- completeness: every finished model run is accepted ---------------------------------- *)
@@ -150,25 +148,44 @@ Qed.
 (* if the model reproduces the implementation's run, the monitor accepts everything it
    checks except possibly the ticker observation *)
 Lemma agree_ok_lemma k :
-  agree k = true ->
-  match k with
-  | Case c _ _ _ res obsd out joined nleft _ _ _ _ =>
-      ok_obs c (mkObs res obsd out joined nleft false) = true
-  end.
+  agree k = true -> ok_obs (cfg_of k) (unstarved (obs_of_case k)) = true.
 Proof.
-  destruct k as [c g l tr res obsd out joined nleft nw pt nt parks]. unfold agree.
-  pose proof (good_replay c g l tr (init c) (good_init c)) as G.
-  destruct (replay c g l (init c) tr) as [b s]. cbn in G.
-  intros H. apply andb_prop in H as [H _].
-  apply andb_prop in H as [H _]. apply andb_prop in H as [H _]. apply andb_prop in H as [H _].
-  apply andb_prop in H as [H Hleft]. apply andb_prop in H as [H Hjoin]. apply andb_prop in H as [H Hout].
-  apply andb_prop in H as [H Hcons]. apply andb_prop in H as [H Hres]. apply andb_prop in H as [_ Hfin].
-  unfold all_finished in Hfin. apply andb_prop in Hfin as [Dn _].
-  pose proof (model_obs_ok c s G Dn) as M.
-  apply ok_obs_sound in M as (M1 & M2 & M3 & M4 & M5 & M6). cbn in *.
-  apply ok_obs_complete_spec. unfold obs_spec. cbn.
-  apply Nat.eqb_eq in Hres. apply nats_eqb_eq in Hcons. apply Nat.eqb_eq in Hleft.
-  apply Bool.eqb_prop in Hjoin.
-  repeat split; try assumption; try reflexivity; try congruence.
-  rewrite M3 in Hout. destruct out as [x|]; cbn in Hout; [|discriminate]. apply outcome_eqb_eq in Hout. congruence.
+  destruct k as [c g l tr res obsd out joined nleft nw pt nt parks|c g nl res obsd out joined nleft nw pt parks];
+    unfold agree, unstarved; cbn [cfg_of obs_of_case o_res o_consumed o_out o_joined o_left].
+  - pose proof (good_replay c g l tr (init c) (good_init c)) as G.
+    destruct (replay c g l (init c) tr) as [b s]. cbn in G.
+    intros H. apply andb_prop in H as [H _].
+    apply andb_prop in H as [H _]. apply andb_prop in H as [H _]. apply andb_prop in H as [H _].
+    apply andb_prop in H as [H Hleft]. apply andb_prop in H as [H Hjoin]. apply andb_prop in H as [H Hout].
+    apply andb_prop in H as [H Hcons]. apply andb_prop in H as [H Hres]. apply andb_prop in H as [_ Hfin].
+    unfold all_finished in Hfin. apply andb_prop in Hfin as [Dn _].
+    pose proof (model_obs_ok c s G Dn) as M.
+    apply ok_obs_sound in M as (M1 & M2 & M3 & M4 & M5 & M6). cbn in *.
+    apply ok_obs_complete_spec. unfold obs_spec. cbn.
+    apply Nat.eqb_eq in Hres. apply nats_eqb_eq in Hcons. apply Nat.eqb_eq in Hleft.
+    apply Bool.eqb_prop in Hjoin.
+    repeat split; try assumption; try reflexivity; try congruence.
+    rewrite M3 in Hout. destruct out as [x|]; cbn in Hout; [|discriminate]. apply outcome_eqb_eq in Hout. congruence.
+  - pose proof (good_run c (canon c)) as G. cbn zeta.
+    set (s := run c (canon c)) in *.
+    intros H.
+    apply andb_prop in H as [H _]. apply andb_prop in H as [H _]. apply andb_prop in H as [H _].
+    apply andb_prop in H as [H Hleft]. apply andb_prop in H as [H Hjoin]. apply andb_prop in H as [H Hout].
+    apply andb_prop in H as [H Hcons]. apply andb_prop in H as [Dn Hres].
+    pose proof (model_obs_ok c s G Dn) as M.
+    apply ok_obs_sound in M as (M1 & M2 & M3 & M4 & M5 & M6). cbn in *.
+    apply ok_obs_complete_spec. unfold obs_spec. cbn.
+    apply Nat.eqb_eq in Hres. apply nats_eqb_eq in Hcons. apply Nat.eqb_eq in Hleft.
+    apply Bool.eqb_prop in Hjoin.
+    repeat split; try assumption; try reflexivity; try congruence.
+    rewrite M3 in Hout. destruct out as [x|]; cbn in Hout; [|discriminate]. apply outcome_eqb_eq in Hout. congruence.
+Qed.
+
+(* the canonical schedule finishes every configuration, so the comparison made for
+   line-level cases is never vacuous *)
+Lemma canon_done c : is_done (run c (canon c)) = true.
+Proof.
+  unfold canon. apply BridgeLive.bridge_terminates_lemma.
+  - apply Forall_forall. intros r H. apply repeat_spec in H. subst r. unfold BridgeLive.fair_round. cbn. tauto.
+  - now rewrite repeat_length.
 Qed.
